@@ -490,6 +490,10 @@ func (l *loop) schedule() {
 	}
 	if res.Panic != "" {
 		l.stats["sched-panic"]++
+		if !strings.Contains(res.Panic, "random draws exhausted") {
+			// the leader's scheduling step died: no round after this one, nothing heals any more
+			l.fail("C01", "loop_alive", "scheduling-step-crashed", "the scheduling step of the control loop crashed: "+res.Panic)
+		}
 		l.record("sched panic")
 		return
 	}
@@ -898,7 +902,30 @@ func main() {
 		run.Count("c01:launched")
 		longDown := map[int]int{}
 		nf := 5 + r.Intn(*maxFault)
+		// in a third of the sequences a whole shard goes dark at some point: every NodeHost that runs a member of it is
+		// down for longer than the failure timeout, while the rest of the fleet keeps reporting
+		outageAt := -1
+		if r.Intn(3) == 0 {
+			outageAt = r.Intn(nf)
+		}
 		for rd := 0; rd < nf; rd++ {
+			if rd == outageAt && len(l.groups) > 0 {
+				ids := []uint64{}
+				for id := range l.groups {
+					ids = append(ids, id)
+				}
+				sort.Slice(ids, func(a, b int) bool { return ids[a] < ids[b] })
+				g := l.groups[ids[r.Intn(len(ids))]]
+				down := 5 + r.Intn(4)
+				for _, a := range g.cur().members {
+					for hi, h := range l.hosts {
+						if h.addr == a {
+							longDown[hi] = down
+						}
+					}
+				}
+				run.Count("c01:whole_shard_outage")
+			}
 			l.faultyRound(longDown)
 			l.checkSafety()
 		}
